@@ -14,6 +14,7 @@ CLAIMED = {
  "C07": ("exploration", "4 C07", "A ledger model (charged - received by the collector) is compared with ProtocolFees / BurnedFees after every step of the pool histories, collections are scheduled at pending amounts of 0, <=1000, 1001 and large, burns are checked against total supply. Covers the pair (constant product and stableswap), the vault and the 3-pool."),
  "C14": ("exploration", "4 C14", "Every executed swap is preceded by the matching Simulation in the same state; attributes, balance deltas and ledger deltas must equal the quote field by field; router multi-hop quotes are compared with the receiver's realised balance increase."),
  "C15": ("exploration", "4 C15", "Boundary generator puts max_spread / belief_price / slippage_tolerance / minimum_receive one ulp around the realised values; acceptance and rejection are compared with exact rational bounds (one-sided, with the rounding band the fixed-point arithmetic is entitled to)."),
+ "C17": ("fault_enumeration", "4 C17", "The complete product of {constant-product pair, stableswap pair, 3-pool, vault} x 2^3 toggle combinations x {empty, funded} is executed (64 cases per 64 run indices), every entry path of every operation is attempted under the toggles and again after re-enabling; a disabled path must fail with the full-chain fingerprint unchanged, an enabled path must never be refused as disabled and must succeed when liquidity is present; fresh contracts report all flags on."),
 }
 
 NOT_YET = {
@@ -24,7 +25,6 @@ NOT_YET = {
  "C12": "check not built yet in this snapshot (INCENT scenario)",
  "C13": "check not built yet in this snapshot (INCENT scenario)",
  "C16": "check not built yet in this snapshot (ALL scenario)",
- "C17": "check not built yet in this snapshot (toggle matrix)",
  "C18": "check not built yet in this snapshot (ALL scenario)",
  "C19": "check not built yet in this snapshot (ALL scenario)",
  "C20": "check not built yet in this snapshot (EPOCH scenario)",
